@@ -389,7 +389,7 @@ theorem dispatch_walk (h : PhInv env inp I J) (self : StateId) (ch : Option UInt
 /-- **the generic walk**: a state-function call keeps a phase-indexed invariant -/
 theorem stateFn_walk (h : PhInv env inp I J) (hph : PhaseOk env.tbl P = true) (m : M κ) (hm : I (P.at m.c.state) m) :
     WalkPost P I J (stateFn env inp m) := by
-  rw [stateFn_split]
+  rw [stateFn_preConsume]
   cases hsd : env.tbl.state? m.c.state with
   | none => simp [WalkPost, U2err, U2]
   | some sd =>
